@@ -340,6 +340,244 @@ func refCbcs(clear []byte, key, iv []byte, subs [][2]int, crypt, skip int) []byt
 	return out
 }
 
+// refCbcsDec: inverse of refCbcs (CBC decryption of the pattern's crypt blocks of every protected range).
+func refCbcsDec(enc []byte, key, iv []byte, subs [][2]int, crypt, skip int) []byte {
+	blk, _ := aes.NewCipher(key)
+	out := append([]byte{}, enc...)
+	ranges := subs
+	if len(subs) == 0 {
+		ranges = [][2]int{{0, len(enc)}}
+	}
+	pos := 0
+	for _, r := range ranges {
+		pos += r[0]
+		prev := append([]byte{}, iv...)
+		for b := 0; b < r[1]/16; b++ {
+			if skip > 0 && b%(crypt+skip) >= crypt {
+				continue
+			}
+			o := pos + 16*b
+			c := append([]byte{}, out[o:o+16]...)
+			x := make([]byte, 16)
+			blk.Decrypt(x, c)
+			for i := 0; i < 16; i++ {
+				out[o+i] = x[i] ^ prev[i]
+			}
+			prev = c
+		}
+		pos += r[1]
+	}
+	return out
+}
+
+// c06Corpus (R5): encrypted files of the corpus that were produced by other tools. The library's decryption is
+// compared sample by sample with the harness's own decryption (senc entries read by the own walker, raw AES block
+// function), and must leave a clear sample entry behind.
+func c06Corpus(rep *Report, tw6 *TraceWriter) int {
+	cases := []struct{ name, init, file, key string }{
+		{"prog_8s_enc_dashinit.mp4", "", "/repo/mp4/testdata/prog_8s_enc_dashinit.mp4", "63cb5f7184dd4b689a5c5ff11ee6a328"},
+		{"cbcs.mp4", "", "/repo/mp4/testdata/cbcs.mp4", "22bdb0063805260307ee5045c0f3835a"},
+		{"cbcs_audio.mp4", "", "/repo/mp4/testdata/cbcs_audio.mp4", "5ffd93861fa776e96cccd934898fc1c8"},
+		{"PIFF/audio", "/repo/cmd/mp4ff-decrypt/testdata/PIFF/audio/init.mp4", "/repo/cmd/mp4ff-decrypt/testdata/PIFF/audio/segment-1.0001.m4s", "602a9289bfb9b1995b75ac63f123fc86"},
+		{"PIFF/video", "", "/repo/cmd/mp4ff-decrypt/testdata/PIFF/video/complseg-1.0001.mp4", "602a9289bfb9b1995b75ac63f123fc86"},
+	}
+	done := 0
+	for _, c := range cases {
+		enc, err := ioutil.ReadFile(c.file)
+		if err != nil {
+			continue
+		}
+		if c.init != "" {
+			ini, err := ioutil.ReadFile(c.init)
+			if err != nil {
+				continue
+			}
+			enc = cat(ini, enc)
+		}
+		key, _ := hex.DecodeString(c.key)
+		cs := J{"corpus": c.name}
+		rt := J{"ev": "roundtrip", "samples_ok": false, "entry_restored": false, "sinf_gone": false, "boxes_kept": true, "offsets_ok": true, "err": ""}
+		changed := 0
+		func() {
+			defer func() {
+				if r := recover(); r != nil {
+					rt["err"] = fmt.Sprintf("panic: %v", r)
+				}
+			}()
+			f, err := mp4.DecodeFile(bytes.NewReader(enc))
+			if err != nil || f.Init == nil {
+				rt["err"] = "decode: " + fmt.Sprint(err)
+				return
+			}
+			// protection parameters per track (from the tenc box)
+			type prot struct {
+				scheme      string
+				ivSize      int
+				constIV     []byte
+				crypt, skip int
+			}
+			prots := map[int]prot{}
+			for _, trak := range f.Init.Moov.Traks {
+				stsd := trak.Mdia.Minf.Stbl.Stsd
+				var sinf *mp4.SinfBox
+				for _, ch := range stsd.Children {
+					switch e := ch.(type) {
+					case *mp4.VisualSampleEntryBox:
+						sinf = e.Sinf
+					case *mp4.AudioSampleEntryBox:
+						sinf = e.Sinf
+					}
+				}
+				if sinf == nil || sinf.Schi == nil || sinf.Schi.Tenc == nil || sinf.Schm == nil {
+					continue
+				}
+				t := sinf.Schi.Tenc
+				prots[int(trak.Tkhd.TrackID)] = prot{sinf.Schm.SchemeType, int(t.DefaultPerSampleIVSize), t.DefaultConstantIV, int(t.DefaultCryptByteBlock), int(t.DefaultSkipByteBlock)}
+			}
+			encRead, err := isoReadFragments(enc)
+			if err != nil {
+				rt["err"] = "encrypted file unreadable: " + err.Error()
+				return
+			}
+			// own decryption: every traf of every moof, senc entries read by the own walker
+			want := map[int][][]byte{}
+			idx := map[int]int{}
+			top, _ := walkBoxes(enc, 0)
+			for _, b := range top {
+				if b.Type != "moof" {
+					continue
+				}
+				kids, _ := walkBoxes(b.Payload, b.Start+b.HdrLen)
+				for _, k := range kids {
+					if k.Type != "traf" {
+						continue
+					}
+					tk, _ := walkBoxes(k.Payload, k.Start+k.HdrLen)
+					track, nsamp := 0, 0
+					var senc []byte
+					for _, x := range tk {
+						switch x.Type {
+						case "tfhd":
+							track = int(binary.BigEndian.Uint32(x.Payload[4:]))
+						case "trun":
+							nsamp += int(binary.BigEndian.Uint32(x.Payload[4:]))
+						case "senc":
+							senc = x.Payload
+						case "uuid":
+							if len(x.Payload) > 24 && hex.EncodeToString(x.Payload[:16]) == "a2394f525a9b4f14a2446c427c648df4" { // PIFF sample encryption box
+								senc = x.Payload[16:]
+							}
+						}
+					}
+					pr, protected := prots[track]
+					if !protected || senc == nil {
+						for k := 0; k < nsamp; k++ {
+							want[track] = append(want[track], encRead[track][idx[track]+k].Data)
+						}
+						idx[track] += nsamp
+						continue
+					}
+					fl := int(binary.BigEndian.Uint32(senc)) & 0xffffff
+					n := int(binary.BigEndian.Uint32(senc[4:]))
+					if n != nsamp {
+						rt["err"] = fmt.Sprintf("senc has %d entries, truns %d samples: not handled by the reference", n, nsamp)
+						return
+					}
+					q := senc[8:]
+					for k := 0; k < n; k++ {
+						iv := make([]byte, 16)
+						if pr.ivSize > 0 {
+							copy(iv, q[:pr.ivSize])
+							q = q[pr.ivSize:]
+						} else {
+							copy(iv, pr.constIV)
+						}
+						var subs [][2]int
+						if fl&2 != 0 {
+							c := int(binary.BigEndian.Uint16(q))
+							q = q[2:]
+							for j := 0; j < c; j++ {
+								subs = append(subs, [2]int{int(binary.BigEndian.Uint16(q)), int(binary.BigEndian.Uint32(q[2:]))})
+								q = q[6:]
+							}
+						}
+						smp := encRead[track][idx[track]+k]
+						var dec []byte
+						if pr.scheme == "cenc" {
+							dec = refCenc(smp.Data, key, iv, subs)
+						} else {
+							dec = refCbcsDec(smp.Data, key, iv, subs, pr.crypt, pr.skip)
+						}
+						if !bytes.Equal(dec, smp.Data) {
+							changed++
+						}
+						want[track] = append(want[track], dec)
+					}
+					idx[track] += n
+				}
+			}
+			// the library
+			di, err := mp4.DecryptInit(f.Init)
+			if err != nil {
+				rt["err"] = "DecryptInit: " + err.Error()
+				return
+			}
+			for _, seg := range f.Segments {
+				if err := mp4.DecryptSegment(seg, di, key); err != nil {
+					rt["err"] = "DecryptSegment: " + err.Error()
+					return
+				}
+			}
+			var db bytes.Buffer
+			if err := f.Encode(&db); err != nil {
+				rt["err"] = "encode decrypted: " + err.Error()
+				return
+			}
+			got, err := isoReadFragments(db.Bytes())
+			if err != nil {
+				rt["err"] = "decrypted output unreadable: " + err.Error()
+				return
+			}
+			ok := true
+			for track, ws := range want {
+				if len(got[track]) != len(ws) {
+					ok = false
+					rt["diff"] = fmt.Sprintf("track %d: %d samples, reference %d", track, len(got[track]), len(ws))
+					break
+				}
+				for i := range ws {
+					if !bytes.Equal(got[track][i].Data, ws[i]) {
+						ok = false
+						rt["diff"] = fmt.Sprintf("track %d sample %d differs from the reference decryption", track, i)
+						break
+					}
+				}
+			}
+			rt["samples_ok"] = ok
+			f3, err := mp4.DecodeFile(bytes.NewReader(db.Bytes()))
+			if err == nil && f3.Init != nil {
+				var ib bytes.Buffer
+				_ = f3.Init.Info(&ib, "", "", " ")
+				rt["sinf_gone"] = !bytes.Contains(ib.Bytes(), []byte("[sinf]"))
+				rt["entry_restored"] = !bytes.Contains(ib.Bytes(), []byte("[encv]")) && !bytes.Contains(ib.Bytes(), []byte("[enca]"))
+			}
+		}()
+		if e, _ := rt["err"].(string); e != "" && (strings.Contains(e, "not handled by the reference") || strings.Contains(e, "no protection parameters")) {
+			rep.Drift("corpus/"+c.name, e, cs)
+			continue
+		}
+		tw6.Reset(J{"name": "corpus:" + c.name, "codec": "corpus", "scheme": "corpus", "extras": "none"})
+		tw6.Ev(rt)
+		if changed == 0 && rt["err"] == "" {
+			rep.Drift("corpus/"+c.name, "the reference decryption changed no sample: nothing compared", cs)
+			continue
+		}
+		rep.Count("corpus-decrypt:"+c.name, true, J{"corpus_decrypt": c.name})
+		done++
+	}
+	return done
+}
+
 // ---- driver
 
 type cencJob struct {
@@ -538,6 +776,7 @@ func cencDrive(args []string) error {
 			rep.Count("corpus"+scheme, true, J{"corpus": "init.mp4+1.m4s", "scheme": scheme})
 		}
 	}
+	rep.Extra["corpus_decrypted"] = c06Corpus(rep, tw6)
 	rep.Extra["tool_runs"] = toolRuns
 	rep.Extra["events07"] = tw7.N
 	rep.Extra["traces07"] = tw7.T
